@@ -877,6 +877,18 @@ pub fn gen_plan(id: &str, rng: &mut Rng) -> Result<(gen::GenModule, Vec<Inj>, bo
                         }
                     }
                 }
+                // special-mode probes on constructs nested strictly INSIDE a replaced region: they disappear with the region
+                for (lo, hi) in taken.clone() {
+                    let inner: Vec<usize> = st.blockish.iter().cloned().filter(|b| *b > lo && *b < hi).collect();
+                    if !inner.is_empty() && rng.chance(1, 3) {
+                        let b = *rng.pick(&inner);
+                        let m = *rng.pick(&[Mode::BlockEntry, Mode::BlockExit, Mode::SemAfter]);
+                        if !(m == Mode::SemAfter && func.ops[b].name == "Loop") {
+                            plan.push(Inj { func: nimp + f as u32, at: b, mode: m, path: *rng.pick(&[Path::Iter, Path::Modifier]), uid, n_ops: 1, leading_drop: false, probe: Probe::Marker });
+                            uid += 1;
+                        }
+                    }
+                }
                 // plain injections outside the replaced regions
                 for _ in 0..rng.below(3) {
                     let at = rng.below(func.ops.len());
